@@ -144,7 +144,24 @@ func checkC17(c *Ctx, r *Report) {
 				break
 			}
 			g := staticCallee(call)
-			if g == nil || g.Blocks == nil || originPkgPath(g) != originPkgPath(selFn) || len(call.Call.Args) == 0 || len(selFn.Params) == 0 || cellValue(call.Call.Args[0]) != ssa.Value(selFn.Params[0]) {
+			if g == nil || g.Blocks == nil || originPkgPath(g) != originPkgPath(selFn) || len(call.Call.Args) == 0 || len(selFn.Params) == 0 {
+				break
+			}
+			// the value being printed reaches the helper as its receiver / an argument, or captured by the filter closure(s)
+			passes := false
+			for _, a := range call.Call.Args {
+				if cellValue(a) == ssa.Value(selFn.Params[0]) {
+					passes = true
+				}
+				if mc, ok := a.(*ssa.MakeClosure); ok {
+					for _, bnd := range mc.Bindings {
+						if cellValue(bnd) == ssa.Value(selFn.Params[0]) {
+							passes = true
+						}
+					}
+				}
+			}
+			if !passes {
 				break
 			}
 			nf := map[*ssa.Parameter]*ssa.Function{}
@@ -166,6 +183,40 @@ func checkC17(c *Ctx, r *Report) {
 			if len(cl.Params) != 1 || len(cl.FreeVars) != 1 {
 				return false
 			}
+			// accepts only if captured % unit == 0: every returned value is that comparison, the constant false, or a
+			// merge / conjunction of such (b >= unit && b%unit == 0)
+			var impliesDiv func(v ssa.Value, d int) bool
+			impliesDiv = func(v ssa.Value, d int) bool {
+				if d > 6 {
+					return false
+				}
+				if b, isC := constBool(v); isC {
+					return !b
+				}
+				switch x := v.(type) {
+				case *ssa.Phi:
+					for _, e := range x.Edges {
+						if !impliesDiv(e, d+1) {
+							return false
+						}
+					}
+					return len(x.Edges) > 0
+				case *ssa.BinOp:
+					if x.Op == token.AND {
+						return impliesDiv(x.X, d+1) || impliesDiv(x.Y, d+1)
+					}
+					if x.Op != token.EQL {
+						return false
+					}
+					rem, isR := x.X.(*ssa.BinOp)
+					k, isC := constInt(x.Y)
+					if !isR || rem.Op != token.REM || !isC || k != 0 || rem.Y != ssa.Value(cl.Params[0]) {
+						return false
+					}
+					return derivesFrom(rem.X, func(v ssa.Value) bool { return v == ssa.Value(cl.FreeVars[0]) })
+				}
+				return false
+			}
 			ok, nret := true, 0
 			eachInstr(cl, func(in ssa.Instruction) {
 				ret, isRet := in.(*ssa.Return)
@@ -173,18 +224,7 @@ func checkC17(c *Ctx, r *Report) {
 					return
 				}
 				nret++
-				eq, isB := ret.Results[0].(*ssa.BinOp)
-				if !isB || eq.Op != token.EQL {
-					ok = false
-					return
-				}
-				rem, isR := eq.X.(*ssa.BinOp)
-				k, isC := constInt(eq.Y)
-				if !isR || rem.Op != token.REM || !isC || k != 0 || rem.Y != ssa.Value(cl.Params[0]) {
-					ok = false
-					return
-				}
-				if !derivesFrom(rem.X, func(v ssa.Value) bool { return v == ssa.Value(cl.FreeVars[0]) }) {
+				if len(ret.Results) != 1 || !impliesDiv(ret.Results[0], 0) {
 					ok = false
 				}
 			})
@@ -244,13 +284,31 @@ func checkC17(c *Ctx, r *Report) {
 		// and ToString divides by that same unit
 		for _, tf := range c.FuncsNamed("(reservoir/utils/bytesize.ByteSize).ToString") {
 			okDiv := false
-			eachInstr(tf, func(in ssa.Instruction) {
-				if bo, isB := in.(*ssa.BinOp); isB && bo.Op == token.QUO {
-					if derivesFrom(bo.X, func(v ssa.Value) bool { return v == ssa.Value(tf.Params[0]) }) {
-						okDiv = true
+			for _, g := range pkgGroup(li, tf) {
+				eachInstr(g, func(in ssa.Instruction) {
+					bo, isB := in.(*ssa.BinOp)
+					if !isB || bo.Op != token.QUO {
+						return
 					}
-				}
-			})
+					if g == tf {
+						if derivesFrom(bo.X, func(v ssa.Value) bool { return v == ssa.Value(tf.Params[0]) }) {
+							okDiv = true
+						}
+						return
+					}
+					// in a helper (b.Convert(unit)): the dividend is the helper's receiver and ToString passes its own
+					for _, cs := range li.Callers[g] {
+						call, okc := asCall(cs.in)
+						if !okc || cs.in.Parent() != tf || len(g.Params) == 0 {
+							continue
+						}
+						a := callArgs(call)
+						if len(a) > 0 && cellValue(a[0]) == ssa.Value(tf.Params[0]) && derivesFrom(bo.X, func(v ssa.Value) bool { return v == ssa.Value(g.Params[0]) }) {
+							okDiv = true
+						}
+					}
+				})
+			}
 			r.Check(okDiv, "C17.R2", "ToString prints value / unit", c.Pos(tf.Pos()), "quotient of the receiver", "ToString no longer prints receiver / unit")
 		}
 	}
